@@ -95,6 +95,18 @@ def oracle_stat(case, rec):
     if not np.array_equal(np.isnan(got), np.isnan(exp)) or not np.array_equal(got[~np.isnan(exp)], exp[~np.isnan(exp)]):
         raise Violation('C14/get_cycle_stat/value/out=%s' % case['out'],
                         'func %s got %r expected %r labels %r' % (case['func'], got.tolist()[:20], exp.tolist()[:20], lab.tolist()[:60]))
+    if K >= 2 and not case['column']:
+        # the caller rejects a cycle by relabelling it -1 in the very array it passed before, and asks again
+        buf = lab.copy()
+        try:
+            emd.cycles.get_cycle_stat(buf, vals.copy(), out=case['out'], func=func)
+            buf[buf == K - 1] = -1
+            second = np.asarray(emd.cycles.get_cycle_stat(buf, vals.copy(), out=case['out'], func=func), dtype=float)
+            fresh = np.asarray(emd.cycles.get_cycle_stat(buf.copy(), vals.copy(), out=case['out'], func=func), dtype=float)
+        except Exception as e:
+            raise Violation('C14/get_cycle_stat/raises/%s/relabelled-array' % type(e).__name__, repr(e))
+        if second.shape != fresh.shape or not np.array_equal(second, fresh, equal_nan=True):
+            raise Violation('C14/get_cycle_stat/stale-result-for-a-label-array-edited-in-place', '')
     lens = [int((lab == c).sum()) for c in range(K)]
     rec.cls('func=' + case['func'])
     rec.cls('values=' + vals.dtype.kind)
